@@ -46,6 +46,8 @@ def classify(what):
         return "cstring-within-record"
     if "exceeds its field" in what:
         return "string-within-field"
+    if what.startswith("users: the string decoded"):
+        return "string-cut-at-first-nul"
     if "overflow" in what:
         return "no-signed-overflow"
     if "does not terminate" in what:
@@ -105,7 +107,13 @@ def users_stubs(mod, recs, state):
     def decode_n(I, st, w, c, p, n):
         o = st.objs[p.obj]
         hi = p.hi if p.hi is not None else o.size
-        I.oblige(st, z3.ULE(n, z3.BitVecVal(hi - p.off, 64)), f"PyUnicode_DecodeFSDefaultAndSize: decoded string exceeds its field [{p.lo},{p.hi}) of {p.obj.split('#')[0]}")
+        width = hi - p.off
+        I.oblige(st, z3.ULE(n, z3.BitVecVal(width, 64)), f"PyUnicode_DecodeFSDefaultAndSize: decoded string exceeds its field [{p.lo},{p.hi}) of {p.obj.split('#')[0]}")
+        if p.obj.startswith("utmp"):
+            # fidelity: what is decoded is the field's C string -- cut at the first NUL, or at the field width when there is none
+            bs = [I.byte_at(st, p.obj, p.off + i) for i in range(width)]
+            I.oblige(st, z3.And(*[z3.Implies(z3.UGT(n, i), b != 0) for i, b in enumerate(bs)], *[z3.Implies(n == i, b == 0) for i, b in enumerate(bs)]),
+                     f"users: the string decoded from field [{p.lo},{p.hi}) is not the field's text up to its first NUL (or its full width)")
         st.log.append(("decode", p.obj, p.off, n))
         return cir.newobj(I, st, "str")
 
@@ -161,6 +169,7 @@ def users_c(ctx, nrec):
             recs.append({i: z3.BitVecVal(concrete[r][i], 8) for i in range(384)})
     state = {"rec_objs": []}
     I = cir.Interp(mod, users_stubs(mod, recs, state))
+    I.max_paths, I.paths_after_finding = 3000, 8
     res = I.run("@psutil_users", [cir.NULL, cir.NULL])
 
     def assign(m):
@@ -206,8 +215,8 @@ def users_c(ctx, nrec):
         for k in state["rec_objs"]:
             if k in st.objs:
                 pass
-    report(ctx, I, ["memory-in-bounds", "cstring-within-record", "string-within-field"], assign)
-    ctx.external("users-fields", fields_ok and bool(res), detail=why)
+    report(ctx, I, ["memory-in-bounds", "cstring-within-record", "string-within-field", "string-cut-at-first-nul"], assign)
+    ctx.external("users-fields", (fields_ok and bool(res)) or I.path_bound_hit, detail=why)
 
 
 # ---- proc.c: ioprio ----------------------------------------------------------------------------------------------------------
